@@ -178,3 +178,34 @@ pub fn ring_verify(alg: &SignatureAlgorithm, public: &[u8], msg: &[u8], sig: &[u
 	};
 	Some(rs::UnparsedPublicKey::new(v, public).verify(msg, sig).is_ok())
 }
+
+/// signature algorithm identifiers registered for PKIX (RFC 3279, 4055, 5758, 8410, 8692 ...),
+/// whether or not rcgen knows them
+pub fn registered_signature_oids() -> Vec<(&'static str, Vec<u64>)> {
+	vec![
+		("md2WithRSAEncryption", vec![1, 2, 840, 113549, 1, 1, 2]),
+		("md5WithRSAEncryption", vec![1, 2, 840, 113549, 1, 1, 4]),
+		("sha1WithRSAEncryption", vec![1, 2, 840, 113549, 1, 1, 5]),
+		("rsassa-pss", vec![1, 2, 840, 113549, 1, 1, 10]),
+		("sha256WithRSAEncryption", vec![1, 2, 840, 113549, 1, 1, 11]),
+		("sha384WithRSAEncryption", vec![1, 2, 840, 113549, 1, 1, 12]),
+		("sha512WithRSAEncryption", vec![1, 2, 840, 113549, 1, 1, 13]),
+		("sha224WithRSAEncryption", vec![1, 2, 840, 113549, 1, 1, 14]),
+		("rsaEncryption", vec![1, 2, 840, 113549, 1, 1, 1]),
+		("dsa-with-sha1", vec![1, 2, 840, 10040, 4, 3]),
+		("dsa-with-sha256", vec![2, 16, 840, 1, 101, 3, 4, 3, 2]),
+		("ecdsa-with-SHA1", vec![1, 2, 840, 10045, 4, 1]),
+		("ecdsa-with-SHA224", vec![1, 2, 840, 10045, 4, 3, 1]),
+		("ecdsa-with-SHA256", vec![1, 2, 840, 10045, 4, 3, 2]),
+		("ecdsa-with-SHA384", vec![1, 2, 840, 10045, 4, 3, 3]),
+		("ecdsa-with-SHA512", vec![1, 2, 840, 10045, 4, 3, 4]),
+		("id-ecPublicKey", vec![1, 2, 840, 10045, 2, 1]),
+		("id-Ed25519", vec![1, 3, 101, 112]),
+		("id-Ed448", vec![1, 3, 101, 113]),
+		("id-X25519", vec![1, 3, 101, 110]),
+		("id-RSASSA-PSS-SHAKE128", vec![1, 3, 6, 1, 5, 5, 7, 6, 30]),
+		("id-ecdsa-with-shake128", vec![1, 3, 6, 1, 5, 5, 7, 6, 32]),
+		("sm2-with-sm3", vec![1, 2, 156, 10197, 1, 501]),
+		("id-ml-dsa-44", vec![2, 16, 840, 1, 101, 3, 4, 3, 17]),
+	]
+}
